@@ -20,6 +20,8 @@ package pebble
 //@ ghostfield any.updName map[string]string
 //@ ghostfield any.vCur map[string]string
 //@ ghostfield any.dCur map[string]string
+// opened[p]: a pebble DB has been opened in directory p (its content was read and validated)
+//@ ghostfield any.opened map[string]Bool
 //@ iface vfs.FS.MkdirAll
 //@   assumed
 //@   params fs, dir, perm
@@ -56,6 +58,8 @@ package pebble
 //@ func SaveCurrentDBDirName
 //@   assumed
 //@   ensures result == nil ==> fs.updName[dir] == dbdir
+// its deferred directory sync (whose error the code ignores: sync failures are outside the crash-only fault model) makes the entries of dir durable
+//@   ensures result == nil ==> forall p string :: parentOf(p) == dir && old(fs.vHas[p]) ==> fs.dHas[p]
 //@   ensures forall p string :: old(fs.dHas[p]) && old(fs.vHas[p]) ==> fs.dHas[p] && fs.vHas[p]
 //@   ensures forall d string :: fs.dCur[d] == old(fs.dCur[d]) && fs.vCur[d] == old(fs.vCur[d])
 //@   modifies fs.updName, fs.vHas, fs.dHas
